@@ -6,7 +6,7 @@ import ast
 from ..astu import U, S, has, same, walk_shallow, call_name, calls_in, kwarg, names_in
 from ..cfg import build, find_guards, defs_of
 from ..core import AnalysisError, Mutant, Rule, Twin
-from ..idioms import for_loops, target_names, exc_name
+from ..idioms import none_default, for_loops, target_names, exc_name
 
 ID = "C02"
 CHEM = "chempy/chemistry.py"
@@ -16,7 +16,8 @@ CLAIM = ("Decides, per mode of the under-determination switch: a raise-guard on 
          "residual A*sol (ILP mode), on free symbols (mode False) lies on every path between the last definition of the solution vector and "
          "the final return; the vector is divided by the gcd of itself after its last external definition and made int in ILP mode; matrix "
          "columns and coefficient lookup share one key list; the duplicate search cannot fall through; the ILP is x>=1 integer, min sum, A x = 0.")
-DOES_NOT_DECIDE = "that sympy's null space / CBC are right, minimality of the coefficient sum, behaviour with fractional compositions"
+DOES_NOT_DECIDE = ("that sympy's null space / CBC are right, minimality of the coefficient sum, behaviour with fractional compositions, whether the "
+                   "parameter elimination of mode True reaches the minimal form (depends on sympy's algebra; only that every step keeps the vector in the null space)")
 ASSUMPTIONS = ["sympy linsolve/gcd/nsimplify and PuLP/CBC behave as documented", "sympy `.is_negative` is True exactly for numerically negative entries"]
 
 MODES = {"True": True, "False": False, "None": None}
@@ -323,6 +324,139 @@ def r9_presence_precheck(ctx):
         ctx.check(txt_ok, a, "absent-refused-unless-self-cancelling:" + side, "when a component is absent from the %s the reaction must be refused unless the %s carry it with both signs" % (side, other), node=l2)
 
 
+def _elementwise_kind(comp, fnscope):
+    """Classify `[f(arg) for arg in <src>]`: 'uniform' (every entry times/over one scalar), 'reparam' (a substitution applied to
+    every entry), 'convert' (a type conversion of every entry), 'bad:<why>' (not the same homogeneous map on every entry), None (unknown)."""
+    if not isinstance(comp, (ast.ListComp, ast.GeneratorExp)) or len(comp.generators) != 1:
+        return None
+    g = comp.generators[0]
+    if g.ifs:
+        return "bad:entries filtered"
+    if not isinstance(g.target, ast.Name):
+        return None
+    if isinstance(g.iter, ast.Subscript):
+        return "bad:source sliced (%s)" % U(g.iter)
+    v = g.target.id
+    e = comp.elt
+    kinds = set()
+    # peel method calls .expand() / .subs(...) / .simplify()
+    while isinstance(e, ast.Call) and isinstance(e.func, ast.Attribute) and e.func.attr in ("expand", "subs", "simplify", "doit"):
+        if e.func.attr == "subs":
+            if any(v in names_in(x) for x in e.args):
+                return "bad:substitution depends on the entry"
+            kinds.add("reparam")
+        e = e.func.value
+    if isinstance(e, ast.Call) and call_name(e) in ("Integer", "int", "nsimplify", "Rational") and len(e.args) == 1 and U(e.args[0]) == v:
+        kinds.add("convert")
+        e = e.args[0]
+    if isinstance(e, ast.Name) and e.id == v:
+        return "+".join(sorted(kinds)) or "identity"
+    if isinstance(e, ast.BinOp):
+        if isinstance(e.op, (ast.Add, ast.Sub)):
+            return "bad:entry shifted by a constant (%s)" % U(e)
+        if isinstance(e.op, (ast.Mult, ast.Div)):
+            l, r = e.left, e.right
+            if isinstance(l, ast.Name) and l.id == v and v not in names_in(r):
+                kinds.add("uniform")
+                return "+".join(sorted(kinds))
+            if isinstance(e.op, ast.Mult) and isinstance(r, ast.Name) and r.id == v and v not in names_in(l):
+                kinds.add("uniform")
+                return "+".join(sorted(kinds))
+            return "bad:not a scalar multiple of the entry (%s)" % U(e)
+        if isinstance(e.op, ast.Pow):
+            return "bad:entry raised to a power (%s)" % U(e)
+    return None
+
+
+def r10_nullspace_preserved(ctx):
+    """Between linsolve and the guards the solution vector is only rescaled as a whole or re-parametrised: a vector of the null space of A
+    stays one, identically in the free parameters (mode True has no residual guard, so this is what keeps its answers balanced)."""
+    fn, final, consts = _setup(ctx)
+    a = CHEM + ":balance_stoichiometry"
+
+    def classify(st, scope, name):
+        """kind of one (re)definition of the vector `name`"""
+        if isinstance(st, ast.AugAssign):
+            if isinstance(st.op, (ast.Div, ast.Mult)):
+                return "uniform"
+            return "bad:%s" % U(st)
+        v = st.value
+        if isinstance(st.targets[0], (ast.Tuple, ast.List)) and isinstance(v, ast.Call) and call_name(v) == "linsolve":
+            return "source:linsolve"
+        if isinstance(v, ast.Call) and call_name(v) == "nsimplify" and U(v.args[0]) == name:
+            return "identity"
+        if isinstance(v, ast.Call) and call_name(v) == "remove" and U(v.args[0]) == name:
+            return "call:remove"
+        if isinstance(v, ast.Call) and call_name(v) == "Tuple" and "_solve_balancing_ilp_pulp(A)" in U(v):
+            comp = v.args[0].value if v.args and isinstance(v.args[0], ast.Starred) else None
+            k = _elementwise_kind(comp, scope)
+            return "source:ilp" if k == "convert" and U(comp.generators[0].iter) == "_solve_balancing_ilp_pulp(A)" else ("bad:ILP result reshaped (%s)" % k)
+        # <name>.func(*[...]) / MutableDenseMatrix([...]).reshape(len(name), 1)
+        comp = None
+        if isinstance(v, ast.Call) and U(v.func) == "%s.func" % name and len(v.args) == 1 and isinstance(v.args[0], ast.Starred):
+            comp = v.args[0].value
+            src_ok = U(comp.generators[0].iter) == "%s.args" % name if isinstance(comp, (ast.ListComp, ast.GeneratorExp)) else False
+        elif isinstance(v, ast.Call) and isinstance(v.func, ast.Attribute) and v.func.attr == "reshape" and isinstance(v.func.value, ast.Call) \
+                and call_name(v.func.value) in ("MutableDenseMatrix", "Matrix") and [U(x) for x in v.args] == ["len(%s)" % name, "1"]:
+            comp = v.func.value.args[0]
+            src_ok = U(comp.generators[0].iter) == name if isinstance(comp, (ast.ListComp, ast.GeneratorExp)) else False
+        elif isinstance(v, ast.BinOp) and isinstance(v.op, (ast.Div, ast.Mult)) and U(v.left) == name and name not in names_in(v.right):
+            return "uniform"
+        if comp is not None:
+            k = _elementwise_kind(comp, scope)
+            if k is None:
+                return None
+            if k.startswith("bad:"):
+                return k
+            if not src_ok:
+                return "bad:not every entry of %s is mapped (%s)" % (name, U(comp.generators[0].iter))
+            return k
+        return None
+
+    n = 0
+    for st in walk_shallow(fn):
+        is_def = (isinstance(st, ast.Assign) and "sol" in [x for t in st.targets for x in target_names(t)]) or (isinstance(st, ast.AugAssign) and U(st.target) == "sol")
+        if not is_def:
+            continue
+        k = classify(st, fn, "sol")
+        n += 1
+        if k is None:
+            raise AnalysisError("balance_stoichiometry: unrecognised redefinition of the solution vector: %s" % U(st))
+        ctx.check(not k.startswith("bad:"), a, "sol-def:%s" % U(st)[:60], "the solution vector may only be rescaled as a whole or re-parametrised; `%s` is %s" % (U(st), k), node=st, kind=k)
+    rm = ctx.func(CHEM, "balance_stoichiometry.remove")
+    for st in walk_shallow(rm):
+        if isinstance(st, ast.Assign) and U(st.targets[0]) == "cont":
+            k = classify(st, rm, "cont")
+            if k is None:
+                raise AnalysisError("balance_stoichiometry.remove: unrecognised redefinition: %s" % U(st))
+            ctx.check(not k.startswith("bad:"), a + ".remove", "cont-def", "`%s` is %s" % (U(st), k), node=st, kind=k)
+    ret = [x for x in walk_shallow(rm) if isinstance(x, ast.Return)]
+    ctx.check(len(ret) == 1 and U(ret[0].value) == "cont", a + ".remove", "returns-mapped-vector", "remove() must return the mapped vector", node=rm)
+    # the switch itself is rebound only to normalise the deprecated literal 1 to None
+    rebinds = [st for st in walk_shallow(fn) if isinstance(st, ast.Assign) and "underdetermined" in [x for t in st.targets for x in target_names(t)]]
+    okr = True
+    for st in rebinds:
+        par = [i for i in walk_shallow(fn) if isinstance(i, ast.If) and any(x is st for x in i.body)]
+        okr = okr and len(par) == 1 and isinstance(par[0].test, ast.Compare) and isinstance(par[0].test.ops[0], ast.Is) and U(par[0].test.left) == "underdetermined" \
+            and consts.get(U(par[0].test.comparators[0]), UNK) == 1 and type(consts.get(U(par[0].test.comparators[0]))) is int and U(st.value) == "None"
+    ctx.check(okr, a, "switch-rebound-only-from-1", "the under-determination switch may be rebound only as `if underdetermined is <1>: underdetermined = None`; rebinds: %s" % [U(x) for x in rebinds], node=fn)
+    # omitted arguments
+    d = none_default(fn, "substances")
+    ctx.check(d is not None and has(d, "OrderedDict([(k, substance_factory(k)) for k in chain(reactants, products)])", scope=fn), a, "default-substances",
+              "given substances must be used as given; only `substances is None` builds them from the species names", node=fn)
+    d = none_default(fn, "parametric_symbols")
+    ctx.check(d is not None and "numbered_symbols(" in U(d), a, "default-symbols", "parametric symbols default only when None", node=fn)
+    # recursive attempts keep the sides where the caller put them
+    rec = [c for c in calls_in(fn) if call_name(c) == "balance_stoichiometry"]
+    for i, c in enumerate(rec):
+        a0, a1 = U(c.args[0]), U(c.args[1])
+        ok = (("reactants" in a0 and "products" not in a0) or a0 == "r") and (("products" in a1 and "reactants" not in a1) or a1 == "p")
+        ctx.check(ok, a, "recursion-keeps-sides:%d" % i, "a recursive attempt must pass the (reduced) reactants first and products second; found (%s, %s)" % (a0[:40], a1[:40]), node=c)
+    for nm, src in (("r", "set(reactants)"), ("p", "set(products)")):
+        ds = [st for st in walk_shallow(fn) if isinstance(st, ast.Assign) and U(st.targets[0]) == nm]
+        ctx.check(len(ds) == 1 and U(ds[0].value) == src, a, "trial-side:%s" % nm, "`%s` must start as %s" % (nm, src), node=fn)
+
+
 RULES = [
     Rule("C02-R1", r1_positivity, 3, "positivity guard dominates the return in all three modes"),
     Rule("C02-R2", r2_zero, 3, "zero-coefficient guard in all three modes"),
@@ -333,6 +467,7 @@ RULES = [
     Rule("C02-R7", r7_duplicates, 5, "duplicate search cannot fall through"),
     Rule("C02-R8", r8_ilp, 5, "ILP formulation"),
     Rule("C02-R9", r9_presence_precheck, 4, "presence pre-check: non-zero (not positive) amount counts as present"),
+    Rule("C02-R10", r10_nullspace_preserved, 14, "solution vector only rescaled as a whole / re-parametrised; switch rebinding; defaults; recursion keeps sides"),
 ]
 
 _POS = '    if any(x.is_negative for x in sol):\n        raise ValueError("Unable to balance: species given on the wrong side.")\n'
@@ -361,3 +496,9 @@ TWINS = [
     Twin("positivity-lt-0", [(CHEM, _POS, "    if any(x < 0 for x in sol if x.is_number):\n        raise ValueError(\"wrong side\")\n")]),
     Twin("zero-guard-any", [(CHEM, "    if 0 in sol:\n", "    if any(x == 0 for x in sol):\n")]),
 ]
+MUTANTS.append(Mutant("sol-shifted-not-scaled", [(CHEM, "sol = sol.func(*[arg / cd for arg in sol.args])", "sol = sol.func(*[arg - cd for arg in sol.args])")], "C02-R10", "sol-def"))
+MUTANTS.append(Mutant("sol-entry-dropped", [(CHEM, "MutableDenseMatrix([e / fact for e in sol]).reshape(len(sol), 1)", "MutableDenseMatrix([e / fact for e in sol if e != 1]).reshape(len(sol), 1)")], "C02-R10", "sol-def"))
+MUTANTS.append(Mutant("switch-rebound-for-every-mode", [(CHEM, "if underdetermined is integer_one:", "if underdetermined is not integer_one:")], "C02-R10", "switch-rebound"))
+MUTANTS.append(Mutant("recursion-swaps-sides", [(CHEM, "                        [sp for sp in reactants if sp != dupl],\n                        [sp for sp in products if sp != dupl],", "                        [sp for sp in products if sp != dupl],\n                        [sp for sp in reactants if sp != dupl],")], "C02-R10", "recursion-keeps-sides"))
+MUTANTS.append(Mutant("given-substances-ignored", [(CHEM, "    if substances is None:\n        substances = OrderedDict(\n            [(k, substance_factory(k)) for k in chain(reactants, products)]", "    if substances is not None:\n        substances = OrderedDict(\n            [(k, substance_factory(k)) for k in chain(reactants, products)]")], "C02-R10", "default-substances"))
+TWINS.append(Twin("sol-matrix-division", [(CHEM, "sol = sol.func(*[arg / cd for arg in sol.args])", "sol = sol.func(*[arg * (1 / cd) for arg in sol.args])")]))
